@@ -12,6 +12,10 @@ pub struct C15Case {
     pub params: Params,
     /// read-only calls
     pub reads: Vec<Op>,
+    /// the state is not built but taken from this golden image (files written by the released
+    /// version); `build` is then the image's history and only provides key pool and key type
+    #[serde(default)]
+    pub golden: Option<String>,
 }
 
 pub struct C15;
@@ -47,8 +51,16 @@ fn build_cfg(tier: Tier, index: u64) -> HistCfg {
         special_keys: false,
         default_table: false,
         big_table: None,
+        empty_mid: false,
+        empty_end: false,
     };
     rare_regions(&mut c, index);
+    if index % 50 == 7 {
+        // a map that once held more than 128 KiB in both files and was emptied completely
+        c.prelude = Prelude::Inflate { val_bytes: 300_000, key_bytes: 200_000 };
+        c.empty_end = true;
+        c.empty_mid = false;
+    }
     c
 }
 
@@ -83,6 +95,22 @@ fn reads_cfg(tier: Tier) -> OpsCfg {
 }
 
 fn strategy(tier: Tier, index: u64) -> BoxedStrategy<C15Case> {
+    if index % 20 == 9 {
+        // read-only session (incl. flush / sync) on an image written by the released version
+        let gh = super::c12::golden_histories();
+        let (name, h) = gh[(index / 20) as usize % gh.len()].clone();
+        let nk = h.maps[0].keys.len();
+        let p0 = h.maps[0].params;
+        let reads = proptest::collection::vec(op_strategy(&reads_cfg(tier), nk, p0), reads_cfg(tier).n_ops);
+        return (reads, params_strategy(BufProfile::Plain, true, 65536))
+            .prop_map(move |(reads, params)| C15Case {
+                build: h.clone(),
+                params,
+                reads,
+                golden: Some(name.clone()),
+            })
+            .boxed();
+    }
     history_strategy(build_cfg(tier, index))
         .prop_flat_map(move |build| {
             let nk = build.maps[0].keys.len();
@@ -105,7 +133,7 @@ fn strategy(tier: Tier, index: u64) -> BoxedStrategy<C15Case> {
         .prop_map(|(build, params, reads)| {
             let (kb, vb) = size_bounds(&build.maps[0].keys, &build.ops);
             let (params, _) = sanitize_params_for(params, kb, vb, build.maps[0].params.buckets);
-            C15Case { build, params, reads }
+            C15Case { build, params, reads, golden: None }
         })
         .boxed()
 }
@@ -114,11 +142,21 @@ fn run_c15(c: &C15Case, w: &WCtx) -> Result<Report, Failure> {
     let ctx = w.ctx();
     let r = guarded(&ctx, || {
         // 1. build the state and close
-        let mut e = Exec::new(&c.build, &ctx)?;
-        e.run()?;
-        let model = e.model(0).clone();
-        let mut rep = e.rep.clone();
-        drop(e);
+        let (model, mut rep) = if let Some(g) = &c.golden {
+            let (files, exp, _h) = super::c12::load_golden(&w.verif_root, g)?;
+            std::fs::create_dir_all(&ctx.dir).map_err(|e| Failure::new("infra", None, format!("mkdir: {e}")))?;
+            super::c12::put_files(&ctx.dir, &files)?;
+            let mut r = Report::default();
+            r.bump("state_from_released_image");
+            (super::c12::exp_model(&exp), r)
+        } else {
+            let mut e = Exec::new(&c.build, &ctx)?;
+            e.run()?;
+            let model = e.model(0).clone();
+            let rep = e.rep.clone();
+            drop(e);
+            (model, rep)
+        };
         let name = &c.build.maps[0].name;
         let b0 = crate::exec::read_files(&ctx.dir, name)
             .map_err(|e| Failure::new("infra", None, format!("read files: {e}")))?;
@@ -192,7 +230,7 @@ impl Prop for C15 {
         "C15"
     }
     fn rule(&self) -> String {
-        "a state is produced by a seeded random update history (all key types, tables 1..65536 incl. < 8 and >= 128 buckets, maps emptied again, 40% bucket-targeted keys) and closed: bytes B0. The directory is reopened (same or freshly drawn parameters) and 20-200 read-only calls are issued: get of present/absent keys, includes_key, len, is_empty, bulk_get, get_string, every iterator flavour fully and partially consumed, all statistics calls, read_fill_buffer, flush/sync_data/sync_all on the unmodified map, db-level sync, handle clones; every result is compared with the model; after close the three files must equal B0 byte for byte (length and content). Non-trivial: the session has a full traversal and a lookup of an absent key and the state has free slots; distinct by case digest."
+        "a state is produced by a seeded random update history (all key types, tables 1..65536 incl. < 8 and >= 128 buckets, maps emptied again - also maps that held more than 128 KiB in both files before they were emptied -, 40% bucket-targeted keys) and closed, or, in every 20th case, taken from one of the golden images written by the released version: bytes B0. The directory is reopened (same or freshly drawn parameters) and 20-200 read-only calls are issued: get of present/absent keys, includes_key, len, is_empty, bulk_get, get_string, every iterator flavour fully and partially consumed, all statistics calls, read_fill_buffer, flush/sync_data/sync_all on the unmodified map, db-level sync, handle clones; every result is compared with the model; after close the three files must equal B0 byte for byte (length and content). Non-trivial: the session has a full traversal and a lookup of an absent key and the state has free slots; distinct by case digest."
             .to_string()
     }
     fn n_cases(&self, tier: Tier) -> u64 {
